@@ -18,32 +18,34 @@ EXTENDS Integers, Sequences, FiniteSets, TLC, Json, IOUtils
 
 Traces == JsonDeserialize("traces.json")
 
-VARIABLES tid, l, stack, released, denied, unmediated
+VARIABLES tid, l, stack, released, denied, unmediated, granted
 
-vars == <<tid, l, stack, released, denied, unmediated>>
+vars == <<tid, l, stack, released, denied, unmediated, granted>>
 
 T  == Traces[tid]
 Ev == T.ev
 
 Init == /\ tid \in 1..Len(Traces) /\ l = 1
-        /\ stack = <<>> /\ released = {} /\ denied = {} /\ unmediated = {}
+        /\ stack = <<>> /\ released = {} /\ denied = {} /\ unmediated = {} /\ granted = 0
 
 GEnter == /\ l <= Len(Ev) /\ Ev[l].e = "genter"
           /\ stack' = Append(stack, <<Ev[l].o, Ev[l].a>>)
-          /\ l' = l + 1 /\ UNCHANGED <<tid, released, denied, unmediated>>
+          /\ l' = l + 1 /\ UNCHANGED <<tid, released, denied, unmediated, granted>>
 
 GExit == /\ l <= Len(Ev) /\ Ev[l].e = "gexit"
          /\ stack # <<>> /\ stack[Len(stack)] = <<Ev[l].o, Ev[l].a>>      \* calls are properly nested
          /\ stack' = SubSeq(stack, 1, Len(stack) - 1)
          /\ released' = IF Ev[l].r = "allow" THEN released \cup {<<Ev[l].o, Ev[l].a>>} ELSE released
          /\ denied' = IF Ev[l].r = "deny" THEN denied \cup {<<Ev[l].o, Ev[l].a>>} ELSE denied
+         \* how often the guard has granted the probed attribute (a guard may grant it in one context and refuse it in another)
+         /\ granted' = IF Ev[l].r = "allow" /\ <<Ev[l].o, Ev[l].a>> = <<T.po, T.pa>> THEN granted + 1 ELSE granted
          /\ l' = l + 1 /\ UNCHANGED <<tid, unmediated>>
 
 Raw == /\ l <= Len(Ev) /\ Ev[l].e = "raw"
        /\ LET x == <<Ev[l].o, Ev[l].a>>
               mediated == stack # <<>> /\ stack[Len(stack)] = x
           IN unmediated' = IF mediated \/ x \in released THEN unmediated ELSE unmediated \cup {x}
-       /\ l' = l + 1 /\ UNCHANGED <<tid, stack, released, denied>>
+       /\ l' = l + 1 /\ UNCHANGED <<tid, stack, released, denied, granted>>
 
 Next == GEnter \/ GExit \/ Raw
 
@@ -84,7 +86,11 @@ ItemsOK == ~T.multi \/
            /\ (T.kind = "initem-skip" \/ T.dset = <<>>) => (T.obs = "items" /\ T.out_items = Allowed(4))
            /\ (T.kind = "initem" /\ T.dset # <<>>) => T.obs = "unauthorized"
 
-Verdict == Done => PrintT(ToJson([tid |-> tid, items_ok |-> ItemsOK,
+\* every wrapper of an object asks the guard for itself: in the counted cases (one insertion per wrapper) the value is shown at
+\* most as often as the guard granted it
+GrantedOK == ~T.counted \/ T.shown_n <= granted
+
+Verdict == Done => PrintT(ToJson([tid |-> tid, items_ok |-> ItemsOK, granted |-> granted, granted_ok |-> GrantedOK,
                                   unmediated |-> unmediated, released |-> released, denied |-> denied,
                                   shown_ok |-> (T.shown => <<T.po, T.pa>> \in released),
                                   expect |-> Expect(T.kind, T.cls),
